@@ -3,11 +3,56 @@ import re
 import checklib as cl
 
 
-def build(ctx):
-    exes, errs = cl.build_harnesses([dict(name="gauss", backend="plain", with_prng=False)])
+OUT_SETS = {0: "int32_t", 1: "int64_t,uint64_t", 2: "uint32_t", 3: "int16_t,uint16_t"}
+
+
+def build_all(ctx):
+    """harness/gauss.cpp compiled once per set of output types (in parallel): {set number: exe}; set 0 (int32_t) carries the TV search
+    and the lifecycles, sets 1..3 the out_class sweeps and poly<T>::set(gaussian)."""
+    import os
+    src = [os.path.join(cl.HARNESS, "gauss.cpp")]
+    specs = [dict(name="gauss", backend="plain", with_prng=False)]
+    specs += [dict(name="gauss_o%d" % k, backend="plain", with_prng=False, srcs=src, extra=["-DGAUSS_OSET=%d" % k]) for k in (1, 2, 3)]
+    exes, errs = cl.build_harnesses(specs)
     for k, e in errs.items():
-        ctx["problems"].append({"kind": "harness-build", "what": "gauss harness does not compile", "detail": e})
-    return exes.get(("gauss", "plain"))
+        ctx["problems"].append({"kind": "harness-build", "what": "gauss harness (%s) does not compile" % k[0], "detail": e})
+    out = {}
+    for k in OUT_SETS:
+        exe = exes.get(("gauss" if k == 0 else "gauss_o%d" % k, "plain"))
+        if exe:
+            out[k] = exe
+    return out
+
+
+def build(ctx):
+    return build_all(ctx).get(0)
+
+
+def run_all(ctx, res, exes, mode, env=None):
+    for k in sorted(exes):
+        run_mode(ctx, res, exes[k], mode, env=env, label="gauss/%s%s" % (mode, "" if k == 0 else "/out=" + OUT_SETS[k]))
+
+
+# out_class x index width x depth: every instantiation must have decoded a string that lands in a FLAGGED cell (full comparison)
+# and yields a NEGATIVE sample (classes are reported by the driver from the model's own decode)
+OUT_NAMES = ["i32", "i64", "u64", "u32", "i16", "u16"]
+
+
+def neg_flagged_coverage(ctx, res, op_marker):
+    """op_marker: substring that selects the classes of the stream (gdec: ':negative' on a probe class; gn: '+full:negative')"""
+    missing = []
+    table = {}
+    for o in OUT_NAMES:
+        for W in (256, 65536):
+            for d in (1, 2):
+                pre = "W=%d:depth=%d:out=%s:" % (W, d, o)
+                n = sum(v for k, v in res.classes.items() if pre in k and op_marker in k)
+                table["%s/W=%d/depth=%d" % (o, W, d)] = n
+                if n == 0:
+                    missing.append(pre)
+    if missing:
+        ctx["problems"].append({"kind": "coverage", "what": "no string in a flagged cell with a negative sample for: " + ", ".join(missing)})
+    return table
 
 
 def run_mode(ctx, res, exe, mode, env=None, label=None, collect=None):
@@ -32,6 +77,20 @@ def run_mode(ctx, res, exe, mode, env=None, label=None, collect=None):
             "last_calls": params[-3:], "report": san[:4], "stderr_tail": h.stderr[-1500:]})
     res.harness_rc = before or rc
     return h
+
+
+def poly_coverage(ctx, res):
+    """gpoly lines per coefficient type / index width / depth whose run contains a negative sample decoded in a flagged cell"""
+    table = {}
+    for T in ("u64", "u32", "u16"):
+        for W in (256, 65536):
+            for d in (1, 2):
+                pre = "W=%d:depth=%d:poly<%s>:" % (W, d, T)
+                table["poly<%s>/W=%d/depth=%d" % (T, W, d)] = sum(v for k, v in res.classes.items() if pre in k and "+full:negative" in k)
+    missing = [k for k, v in table.items() if v == 0]
+    if missing:
+        ctx["problems"].append({"kind": "coverage", "what": "poly::set(gaussian) never saw a negative sample from a flagged cell for: " + ", ".join(missing)})
+    return table
 
 
 def _is_pow2(m):
@@ -65,17 +124,20 @@ def gtv_summary(lines):
             "max_ratio_to_bound": (worst[0] / 1e6) if worst else None, "worst_line": worst[1] if worst else None}
 
 
-def search_more(ctx, modes, build_fn=build):
+def search_more(ctx, modes, build_fn=build_all):
     """re-run with other seeds in the thorough tier and return spec failures / model-vs-implementation differences."""
     found = []
-    exe = build_fn(ctx)
-    if not exe:
+    exes = build_fn(ctx)
+    if not exes:
         return found
     for s in range(2):
         r2 = cl.StreamResult()
         c2 = {"problems": [], "failing_inputs": []}
         for m in modes:
-            run_mode(c2, r2, exe, m, env={"VERIF_SEED": str(ctx["seed"] * 1000 + 17 + s)})
+            for k in sorted(exes):
+                if m == "tv" and k != 0:
+                    continue
+                run_mode(c2, r2, exes[k], m, env={"VERIF_SEED": str(ctx["seed"] * 1000 + 17 + s)})
         for sf in r2.specfail:
             found.append({"kind": "spec", **sf})
         for md in r2.modeldiff:
